@@ -100,6 +100,12 @@ class C11(Monitor):
         s = ctx.s
         if tk != self.t0 + k * self.dt:
             ctx.violate("C11", "clock-off-grid", f"step {k} started at {tk}, expected {self.t0 + k*self.dt}")
+        for rid in ctx.injected_now:
+            # handed in by a client between two calls (no admission record exists for it): from now on it is a waiting request
+            # like any other, to be cancelled in the first step that starts at or after departure + timeout
+            self.reqs[rid] = {"id": rid, "t": ctx.injected_departure[rid]}
+            self.added[rid] = k
+            ctx.count("c11_requests_handed_in_between_calls")
         adds, cancels = [], []
         for r in ctx.E:
             t = r.report_type.name
